@@ -226,8 +226,12 @@ def run_pair(ctx, a, b, ct, cd, batch, pending, compare_model=True):
             src = S.exec_upgrade(conn, mctx, script)
         except Exception as e:
             if pair_wf(a, b):
+                extra = []
+                acols = {t["name"]: {c["name"] for c in t["cols"]} for t in a["tables"]}
+                if any(t["name"] in acols and not (acols[t["name"]] & {c["name"] for c in t["cols"]}) for t in b["tables"]):
+                    extra.append("table-without-common-column")
                 ctx.fail(inp, "upgrade-error: the rendered upgrade does not run (%s: %s)" % (type(e).__name__, str(e)[:300]),
-                         impl={"ops": ops}, tags=["batch:%s" % batch] + flags)
+                         impl={"ops": ops}, tags=["batch:%s" % batch, "exc:%s" % type(e).__name__] + extra + flags)
             else:
                 ctx.hist("pair.outcome", "upgrade-error-outside-class")
             return "upgrade-error"
